@@ -265,6 +265,12 @@ func build(p *Program, rng *lib.Rng, tags []string) *session {
 		s.Texts = append(s.Texts, progText(p, st, "prog"))
 		s.Tags = append(s.Tags, "texts:one")
 	}
+	if rng.Intn(2) == 0 {
+		// a run-time failure through another entry point of the Go API, called at rest
+		t := apiFailureText(rng)
+		s.Texts = append(s.Texts, t)
+		s.Tags = append(s.Tags, "api-entry:"+strings.SplitN(t.Src[len("//via:"):], "\n", 2)[0])
+	}
 	if rng.Intn(3) != 0 {
 		i := rng.Intn(len(interludes))
 		s.Texts = append(s.Texts, Text{Src: interludes[i], Prefix: noopErr, Role: "interlude"})
@@ -375,6 +381,9 @@ func runProgram(seed uint64, i int, shrunkClasses map[string]bool) []caseRec {
 		s := &session{P: &Program{}, Names: []string{"f", "h", "x", "y"}, Tags: []string{"stream:raw-extension", "family:" + fam, "texts:per-form"}}
 		for _, src := range srcs {
 			s.Texts = append(s.Texts, Text{Src: src, Prefix: "RAW", Role: "prog"})
+		}
+		if rng.Intn(3) == 0 {
+			s.Texts = append(s.Texts, apiFailureText(rng))
 		}
 		if rng.Intn(3) != 0 {
 			j := rng.Intn(len(interludes))
